@@ -133,10 +133,16 @@ def c01() -> int:
     return run()
 
 
+def c15() -> int:
+    from .comp import c15 as run
+
+    return run()
+
+
 def c20() -> int:
     from .enum_shift import c20 as run
 
     return run()
 
 
-CHECKS = {"C01": c01, "C20": c20, "C08": c08, "C12": c12, "C11": c11, "C04": c04, "C13": c13, "C14": c14, "C17": c17, "C02": c02, "C03": c03, "C07": c07}
+CHECKS = {"C15": c15, "C01": c01, "C20": c20, "C08": c08, "C12": c12, "C11": c11, "C04": c04, "C13": c13, "C14": c14, "C17": c17, "C02": c02, "C03": c03, "C07": c07}
